@@ -43,3 +43,35 @@ Qed.
 
 Lemma rejects_iff_not_documented s : in_type s -> verify_rejects s = negb (documented s).
 Proof. intros H. unfold verify_rejects, documented. apply existsb_forallb_neg. apply sites_match. exact H. Qed.
+
+(* ---- the one cell the documented domain reads that copy_api_from_app derives instead of copying: the frame rate ----
+   which caller fields feed it, for every caller configuration c and previous content p *)
+Lemma effective_frame_rate_cell c p :
+  f_frame_rate (effective c p) =
+  if negb (f_frame_rate_numerator c =? 0) && negb (f_frame_rate_denominator c =? 0)
+  then wrapU 32 (Z.shiftl (wrapU 32 (wrapU 32 (Z.shiftl (f_frame_rate_numerator c) 8) ÷ f_frame_rate_denominator c)) 8)
+  else f_frame_rate c.
+Proof. unfold effective, effective_and_scope; cbv zeta; cbn [fst f_frame_rate]. reflexivity. Qed.
+
+(* in the caller's terms: with numerator and denominator set (numerator below 2^24, rate below 65536 fps so that the 32-bit arithmetic of the C does not wrap), the two frame-rate conditions of the documented
+   domain hold exactly when 1/256 fps <= numerator / denominator < 240 + 1/256 fps, whatever frame_rate holds *)
+Lemma frame_rate_from_caller c p : let n := f_frame_rate_numerator c in let d := f_frame_rate_denominator c in
+  0 < d -> 0 < n < 2 ^ 24 -> n < 65536 * d ->
+  ((f_frame_rate (effective c p) <=? 15728640) && negb (f_frame_rate (effective c p) =? 0) = true <-> d <= n * 256 /\ n * 256 < 61441 * d).
+Proof.
+  intros n d Hd Hn Hr. rewrite effective_frame_rate_cell. fold n d.
+  destruct (Z.eqb_spec n 0) as [E|_]; [lia|]. destruct (Z.eqb_spec d 0) as [E|_]; [lia|]. cbn [negb andb].
+  rewrite !Z.shiftl_mul_pow2 by lia. change (2 ^ 8) with 256.
+  rewrite (wrapU_id 32 (n * 256)) by lia.
+  assert (Hq : 0 <= n * 256 ÷ d <= n * 256).
+  { rewrite Z.quot_div_nonneg by lia. split; [apply Z.div_pos; lia|]. apply Z.div_le_upper_bound; nia. }
+  rewrite (wrapU_id 32 (n * 256 ÷ d)) by lia.
+  rewrite Z.quot_div_nonneg in * by lia.
+  set (q := n * 256 / d) in *.
+  assert (Hqd : q * d <= n * 256 < (q + 1) * d) by (subst q; pose proof (Z.div_mod (n * 256) d ltac:(lia)); pose proof (Z.mod_pos_bound (n * 256) d ltac:(lia)); nia).
+  assert (Hq24 : q < 2 ^ 24) by (apply Z.lt_le_trans with (65536 * 256); [|lia]; nia).
+  rewrite (wrapU_id 32 (q * 256)) by lia.
+  rewrite andb_true_iff, negb_true_iff, Z.leb_le, Z.eqb_neq. split.
+  - intros [H1 H2]. split; nia.
+  - intros [H1 H2]. split; nia.
+Qed.
